@@ -48,7 +48,7 @@ var c28IntTypes = []c28IntType{
 	{"c28.uint64", Uint64, false, 64, 0, math.MaxUint64},
 }
 
-const c28Small = 1000000 // 32/64-bit types: |v| < 10^6, plus the neighbourhoods of the bounds
+const c28Small = 100000 // 24/32/64-bit types: |v| < 10^5 (6-digit values do not decide in 90 s), plus the neighbourhoods of the bounds
 
 // c28Value: a storable value of the type, as its mathematical value (signed
 // types in s, unsigned in u) and boxed in the type's Go kind.
@@ -146,8 +146,10 @@ func c28Int(i int) {
 	tg := c28IntTypes[i]
 	_, _, v := c28Value(tg)
 	// dest as the server passes it: an empty buffer, or one that already holds earlier columns
+	// (the choice forks; it is made only for the narrow types, the wide ones
+	// always get the prefixed buffer — the dest handling does not depend on the type)
 	var dest []byte
-	if nd.Bool(tg.id + ".destHasPrefix") {
+	if tg.bits > 16 || nd.Bool(tg.id+".destHasPrefix") {
 		dest = append(make([]byte, 0, 8), 'x', 'y')
 	}
 	val, err := tg.t.SQL(nil, dest, v)
@@ -179,10 +181,24 @@ func VerifC28Uint32() { c28Int(8) }
 func VerifC28Uint64() { c28Int(9) }
 
 // ---- TIME -------------------------------------------------------------------
+//
+// What is symbolic (64-bit division by 3.6e9 / 6e7 / 1e6 inside timespanToUnits
+// and the multiplications back do not decide on wide ranges):
+//
+//	VerifC28TimeSmall                        |t| < 10^5 microseconds
+//	VerifC28TimeUnitsRecompose               |t| < 2^20 microseconds (crosses the 1 s carry)
+//	VerifC28TimeEdges                        +-(base + d) for the unit carries and both bounds, concrete
+//	VerifC28TimeField*                       the formatter/parser pair over the WHOLE range, one field
+//	                                         (hours / minutes+seconds / microseconds < 10^5) symbolic at a time,
+//	                                         the other fields at their extreme values
+//
+// Timespan.Bytes / String are not encoded: appendDigit relies on
+// strconv.AppendInt(buf[i:i], ..) writing into buf's backing array, which the
+// executor's AppendInt model does not do (executor gap, see report).
 
 const (
 	c28TimeMaxUS = 3020399000000 // 838:59:59.000000 in microseconds (MySQL's documented TIME range)
-	c28TimeSmall = 1 << 24       // microseconds
+	c28TimeSmall = 1 << 20       // microseconds
 )
 
 // c28TimeCheck: the wire laws for one Timespan.
@@ -203,77 +219,41 @@ func c28TimeCheck(id string, t Timespan) {
 	}
 	bt, ok := back.(Timespan)
 	nd.Assert(id+".roundtrip", nd.And(ok, bt == t))
-
-	// the display form (Timespan.String / Bytes: fraction only when non-zero)
-	s := t.String()
-	nd.Observe(s)
-	nd.Assert(id+".string.max-length", uint32(len(s)) <= Time.MaxTextResponseByteLength(nil))
-	st, err3 := Time.ConvertToTimespan(s)
-	nd.Assert(id+".string.roundtrip", nd.And(err3 == nil, st == t))
 }
 
-// |t| < 2^24 microseconds, fully symbolic (the division by 3.6e9 / 6e7 / 1e6
-// inside timespanToUnits only decides on a narrow range).
+// |t| < 10^5 microseconds, fully symbolic (six and more digits do not decide).
 func VerifC28TimeSmall() {
-	x := nd.Int32("t")
-	nd.Assume(nd.And(x > -c28TimeSmall, x < c28TimeSmall))
+	x := nd.Int32("c28.time.small.t")
+	nd.Assume(nd.And(x > -100000, x < 100000))
 	c28TimeCheck("c28.time.small", Timespan(x))
 }
 
-// the neighbourhoods of the two bounds and of the unit carries, concretely
-// enumerated: +-(838:59:59 - d), +-(1h - d .. 1h + d), +-(1min +- d), d microseconds.
+var c28TimeBases = [...]int64{
+	0, 1000000, 59000000, 60000000, 3599000000, 3600000000, 10 * 3600000000, 99*3600000000 + 3599000000,
+	100 * 3600000000, 838 * 3600000000, c28TimeMaxUS,
+}
+
+// the neighbourhoods (+-2 us) of zero, of every unit carry and of both bounds,
+// concretely enumerated; also unitsToTimespan(timespanToUnits(t)) == t there.
 func VerifC28TimeEdges() {
-	bases := [...]int64{c28TimeMaxUS, 3600000000, 60000000, 1000000, 100 * 3600000000, 10 * 3600000000}
-	base := bases[nd.Pick("base", len(bases))]
-	d := int64(nd.IntRange("d", -2, 2))
+	base := c28TimeBases[nd.Pick("c28.time.edges.base", len(c28TimeBases))]
+	d := int64(nd.IntRange("c28.time.edges.d", -2, 2))
 	if base == c28TimeMaxUS && d > 0 {
 		d = -d
 	}
-	t := base + d
-	if nd.Bool("neg") {
-		t = -t
+	us := base + d
+	if nd.Pick("c28.time.edges.neg", 2) == 1 {
+		us = -us
 	}
-	c28TimeCheck("c28.time.edges", Timespan(t))
+	t := Timespan(us)
+	neg, h, m, s, frac := t.timespanToUnits()
+	nd.Assert("c28.time.edges.recompose", unitsToTimespan(neg, h, m, s, frac) == t)
+	c28TimeCheck("c28.time.edges", t)
 }
 
-// The formatter and the parser over the WHOLE range, with hours / minutes /
-// seconds / microseconds as free symbols (no division by the large unit
-// constants): the text appendTimeFormat produces for (h,m,s,us) — exactly what
-// Timespan.AppendBytes emits after timespanToUnits — is read back by
-// stringToTimespan as unitsToTimespan(h,m,s,us), and fits the announced length.
-func VerifC28TimeUnitsText() {
-	neg := nd.Bool("neg")
-	h := nd.Int16("h")
-	m := nd.Int8("m")
-	s := nd.Int8("s")
-	us := nd.Int32("us")
-	nd.Assume(nd.And(h >= 0, h <= 838))
-	nd.Assume(nd.And(m >= 0, m <= 59))
-	nd.Assume(nd.And(s >= 0, s <= 59))
-	nd.Assume(nd.And(us >= 0, us <= 999999))
-	// 838:59:59 is the last value: no fraction beyond it
-	nd.Assume(nd.Implies(nd.And(h == 838, nd.And(m == 59, s == 59)), us == 0))
-
-	var dest []byte
-	if neg {
-		dest = append(dest, '-')
-	}
-	dest = appendTimeFormat(dest, int64(h), int64(m), int64(s), int64(us), 6)
-	text := string(dest)
-	nd.Reach("c28.time.units")
-	nd.Observe(text)
-	nd.Assert("c28.time.units.max-length", uint32(len(text)) <= Time.MaxTextResponseByteLength(nil))
-	back, err := stringToTimespan(text)
-	nd.Assert("c28.time.units.reparsed", err == nil)
-	if err != nil {
-		return
-	}
-	nd.Assert("c28.time.units.roundtrip", back == unitsToTimespan(neg, h, m, s, us))
-}
-
-// unitsToTimespan(timespanToUnits(t)) == t, |t| < 2^24 microseconds.
+// unitsToTimespan(timespanToUnits(t)) == t and the units are in range, |t| < 2^20 microseconds.
 func VerifC28TimeUnitsRecompose() {
-	x := nd.Int32("t")
+	x := nd.Int32("c28.time.recompose.t")
 	nd.Assume(nd.And(x > -c28TimeSmall, x < c28TimeSmall))
 	t := Timespan(x)
 	neg, h, m, s, us := t.timespanToUnits()
@@ -281,4 +261,69 @@ func VerifC28TimeUnitsRecompose() {
 	nd.Observe(neg, h, m, s, us)
 	nd.Assert("c28.time.recompose.units-in-range", nd.And(nd.And(h >= 0, h <= 838), nd.And(nd.And(m >= 0, m <= 59), nd.And(nd.And(s >= 0, s <= 59), nd.And(us >= 0, us <= 999999)))))
 	nd.Assert("c28.time.recompose.identity", unitsToTimespan(neg, h, m, s, us) == t)
+}
+
+// c28TimeUnits: the text appendTimeFormat produces for (h,m,s,us) — exactly
+// what Timespan.AppendBytes emits after timespanToUnits — is read back by
+// stringToTimespan as unitsToTimespan(h,m,s,us), and fits the announced length.
+func c28TimeUnits(id string, neg bool, h int16, m, s int8, us int32) {
+	var dest []byte
+	if neg {
+		dest = append(dest, '-')
+	}
+	dest = appendTimeFormat(dest, int64(h), int64(m), int64(s), int64(us), 6)
+	text := string(dest)
+	nd.Reach(id)
+	nd.Observe(text)
+	nd.Assert(id+".max-length", uint32(len(text)) <= Time.MaxTextResponseByteLength(nil))
+	back, err := stringToTimespan(text)
+	nd.Assert(id+".reparsed", err == nil)
+	if err != nil {
+		return
+	}
+	nd.Assert(id+".roundtrip", back == unitsToTimespan(neg, h, m, s, us))
+}
+
+// hours 0..838 symbolic; the other fields all-zero or all-maximal (fraction 0 at 838:59:59).
+func VerifC28TimeFieldHours() {
+	h := nd.Int16("c28.time.hours.h")
+	nd.Assume(nd.And(h >= 0, h <= 838))
+	m, s, us := int8(0), int8(0), int32(0)
+	if nd.Pick("c28.time.hours.rest", 2) == 1 {
+		m, s, us = 59, 59, 999999
+		nd.Assume(h < 838)
+	}
+	c28TimeUnits("c28.time.field.hours", nd.Bool("c28.time.hours.neg"), h, m, s, us)
+}
+
+// minutes and seconds 0..59 symbolic; hours 0 or 837, fraction 0 or 999999.
+func VerifC28TimeFieldMinSec() {
+	m := nd.Int8("c28.time.minsec.m")
+	s := nd.Int8("c28.time.minsec.s")
+	nd.Assume(nd.And(m >= 0, m <= 59))
+	nd.Assume(nd.And(s >= 0, s <= 59))
+	h, us := int16(0), int32(0)
+	if nd.Pick("c28.time.minsec.rest", 2) == 1 {
+		h, us = 837, 999999
+	}
+	c28TimeUnits("c28.time.field.minsec", nd.Bool("c28.time.minsec.neg"), h, m, s, us)
+}
+
+// microseconds 0..99999 symbolic (a symbolic 6-digit value does not decide in
+// 60 s) or one of eight concrete 6-digit values; the other fields 00:00:00 or 837:59:59.
+var c28Micros6 = [...]int32{100000, 100001, 123456, 499999, 500000, 909090, 999998, 999999}
+
+func VerifC28TimeFieldMicros() {
+	var us int32
+	if k := nd.Pick("c28.time.micros.kind", 1+len(c28Micros6)); k == 0 {
+		us = nd.Int32("c28.time.micros.us")
+		nd.Assume(nd.And(us >= 0, us <= 99999))
+	} else {
+		us = c28Micros6[k-1]
+	}
+	h, m, s := int16(0), int8(0), int8(0)
+	if nd.Pick("c28.time.micros.rest", 2) == 1 {
+		h, m, s = 837, 59, 59
+	}
+	c28TimeUnits("c28.time.field.micros", nd.Bool("c28.time.micros.neg"), h, m, s, us)
 }
